@@ -11,6 +11,7 @@
 -/
 import Gotree.Lemmas.C16Nodup
 import Gotree.Lemmas.C16Oracle
+import Gotree.Lemmas.C16Script
 
 namespace Gotree.C16
 open Gotree
@@ -75,6 +76,15 @@ theorem gen_meets_oracle (g : GenKind) (n : Nat) (rooted : Bool) (ints : List Na
     (h : g.min rooted ≤ n) (hd : drawsInRange g n rooted ints = true) (hl : lensNonneg lens = true) :
     ∃ o, run g (n : Int) rooted ints lens = .ok o ∧ genTreeOK g n rooted o.t = true :=
   genTreeOK_model g n rooted ints lens h hd hl
+
+/-- The draw protocol: a call with size `n` reads exactly the first `nintsZ` integer draws and the
+    first `nlens` exponential values (the script the harness replays, whose length the driver
+    compares with these numbers on every case) — changing anything beyond them changes nothing. -/
+theorem gen_reads_only_script (g : GenKind) (n : Int) (rooted : Bool) (ints ints' : List Nat) (lens lens' : List Rat)
+    (hi : ∀ j, j < g.nintsZ n rooted → ints'.getD j 0 = ints.getD j 0)
+    (hl : ∀ j, j < g.nlens n rooted → lens'.getD j 0 = lens.getD j 0) :
+    run g n rooted ints' lens' = run g n rooted ints lens :=
+  run_congr g n rooted ints ints' lens lens' ⟨hi, hl⟩
 
 /-! ### gen_rejects -/
 
